@@ -1276,3 +1276,28 @@ def bootstrap_aggregate_identity_replay():
         out["exc"] = f"{type(e).__name__}: {e}"
         out["ok"] = False
     return out
+
+
+def level_independence_replay(pi_method="gaussian"):
+    """REAL client: the intervals reported for level 0.7 must be the same whether 0.7 is requested alone or together with
+    0.9 (in either order), at every aggregate"""
+    base = synthetic(90, seed=4)
+    cur = feed(base, [100] * 55 + [30] * 35)
+    out = {"exc": None, "differences": []}
+    try:
+        runs = {}
+        for name, levels in (("alone", (0.7,)), ("with_0.9_after", (0.7, 0.9)), ("with_0.9_before", (0.9, 0.7))):
+            c, r = run_client(cur, base, estimands=("turnout",), pi_method=pi_method, prediction_intervals=levels, aggregates=("postal_code", "county_classification", "unit"))
+            runs[name] = r
+        for name in ("with_0.9_after", "with_0.9_before"):
+            for tab in runs["alone"]:
+                a, b = runs["alone"][tab], runs[name][tab]
+                for col in ("lower_0.7_turnout", "upper_0.7_turnout", "pred_turnout"):
+                    if col in a and not np.array_equal(np.asarray(a[col]), np.asarray(b[col])):
+                        out["differences"].append({"request": name, "table": tab, "column": col, "alone": float(np.asarray(a[col])[0]), "together": float(np.asarray(b[col])[0])})
+        out["differences"] = out["differences"][:4]
+        out["ok"] = not out["differences"]
+    except Exception as e:  # noqa
+        out["exc"] = f"{type(e).__name__}: {e}"
+        out["ok"] = False
+    return out
